@@ -250,6 +250,67 @@ def specAllLoops (a : AState) (h : CH) : Except Code (List LH) :=
   if !a.containers.any (fun c => c.id == h.id) then .error CIF_INVALID_HANDLE
   else .ok ((a.loops.filter (fun y => y.cid == h.id)).map (fun y => { cid := h.id, loopNum := y.num, category := y.category }))
 
+-- ---- packet iterators on the documented model ---------------------------------------------------------------------------------------
+
+/-- an open packet iterator, as the documentation describes it: it walks the packets of one loop in order; `done` packets of the loop
+    (as it is now) lie behind it, the last of them is its current packet unless that was removed (or none was delivered yet);
+    `start` is the CIF as it was when the iterator was created — what cif_pktitr_abort brings back -/
+structure AIter where
+  cid : Nat
+  num : Nat
+  done : Nat
+  hasCur : Bool
+  start : AState
+deriving Inhabited
+
+structure AITE where
+  cif : Nat
+  lh : Nat
+  it : AIter
+deriving Inhabited
+
+/-- cif_loop_get_packets on a CIF without open iterator -/
+def specItOpen (a : AState) (l : LH) : Except Code AIter :=
+  match a.findLoop l.cid l.loopNum with
+  | none => .error CIF_INVALID_HANDLE
+  | some x =>
+    if x.items.isEmpty then .error CIF_INVALID_HANDLE
+    else if x.packets.isEmpty then .error CIF_EMPTY_LOOP
+    else .ok { cid := l.cid, num := l.loopNum, done := 0, hasCur := false, start := a }
+
+/-- cif_pktitr_next_packet: the next packet of the loop — one (name, value) pair per item, in the loop's order — or CIF_FINISHED -/
+def specItNext (a : AState) (it : AIter) : AIter × Except Code (List (Str × V)) :=
+  match a.findLoop it.cid it.num with
+  | none => (it, .error CIF_INTERNAL_ERROR)
+  | some x =>
+    match x.packets[it.done]? with
+    | some p => ({ it with done := it.done + 1, hasCur := true }, .ok ((x.items.map (·.1)).zip p))
+    | none => (it, .error CIF_FINISHED)
+
+/-- packet `idx` of the loop with the values `pkt` gives for its items, its other values unchanged -/
+def ALoop.updAt (y : ALoop) (idx : Nat) (pkt : List (Str × V)) : ALoop :=
+  match y.packets[idx]? with
+  | some p =>
+    let p' := (y.items.zip p).map (fun e => ((pkt.find? (fun q => q.1 == e.1.1)).map (·.2)).getD e.2)
+    { y with packets := y.packets.set idx p' }
+  | none => y
+
+/-- cif_pktitr_update_packet: CIF_MISUSE without a current packet, CIF_WRONG_LOOP for an item of another loop; else the current
+    packet gets the given values, its other values stay -/
+def specItUpdate (a : AState) (it : AIter) (pkt : List (Str × V)) : AState × Except Code Unit :=
+  if !it.hasCur then (a, .error CIF_MISUSE)
+  else match a.findLoop it.cid it.num with
+    | none => (a, .error CIF_INTERNAL_ERROR)
+    | some x =>
+      if pkt.any (fun e => !x.hasItem e.1) then (a, .error CIF_WRONG_LOOP)
+      else (a.onLoop it.cid it.num (fun y => y.updAt (it.done - 1) pkt), .ok ())
+
+/-- cif_pktitr_remove_packet: CIF_MISUSE without a current packet; else the current packet goes, and there is no current packet -/
+def specItRemove (a : AState) (it : AIter) : AState × AIter × Except Code Unit :=
+  if !it.hasCur then (a, it, .error CIF_MISUSE)
+  else (a.onLoop it.cid it.num (fun y => { y with packets := y.packets.eraseIdx (it.done - 1) }),
+        { it with done := it.done - 1, hasCur := false }, .ok ())
+
 -- ---- histories on the documented model -----------------------------------------------------------------------------------------------
 
 /-- the world of a history, every managed CIF as the documented model; the handle tables are the caller's (a handle names an object),
